@@ -162,6 +162,20 @@ pub fn main(tier: Tier, seed: u64) -> i32 {
             ));
         }
     }
+    // a register file larger than 2^16 (every per-register message of the online phase is long)
+    {
+        let wide = 70_000usize;
+        let mut b = crate::circuits::B::new(&[wide, 1]);
+        let x = b.xor(0, (wide - 1) as u32);
+        let y = b.and(x, wide as u32);
+        let z = b.not(y);
+        let c = b.out(&[z, x, 5]);
+        for (k, p_eval) in [0usize, 1].into_iter().enumerate() {
+            let mut inputs = vec![(0..wide).map(|i| (i + k) % 3 == 0).collect::<Vec<bool>>(), vec![true]];
+            inputs[0][wide - 1] = k == 0;
+            cases.push((format!("batch:wide{wide}"), MpcCase { circ: c.clone(), inputs, p_eval, p_out: vec![0, 1], tmp_mask: (k as u32) << 1 }));
+        }
+    }
     let sweep3 = cases.len() - sweep1 - sweep2;
 
     // run
